@@ -674,6 +674,23 @@ func c11Configs(tier string) []*handCfg {
 			}
 		}
 	}
+	// short-deck tables (ante from everybody, blind from the dealer only)
+	for li, l := range lays {
+		if len(l.ids) > 4 {
+			continue
+		}
+		for _, ln := range lnames {
+			for _, rev := range []bool{false, true} {
+				tc := defaultCfg(9)
+				tc.Rule = pt.CompetitionRule_ShortDeck
+				tc.Blind = pt.TableBlindState{Level: 1, Ante: 1, Dealer: 2, SB: 0, BB: 0}
+				tc.Deck = "plain"
+				hc := &handCfg{name: fmt.Sprintf("lay%d/short-deck/%s/rev=%v", li, ln, rev), tcfg: tc, ids: l.ids, seatOf: l.seats, stacks: l.stacks, hands: 2, line: lines[ln]}
+				hc.pol = HandPolicy{Reverse: rev, Finish: "all", Withhold: map[string]bool{}}
+				out = append(out, hc)
+			}
+		}
+	}
 	// every betting line (round-skipping shapes included) with the default order
 	for _, hc := range c10Configs(tier) {
 		c := *hc
